@@ -5,6 +5,7 @@ import ast
 
 from ..cfg import cfg_of, T as TRUE, F as FALSE
 from ..dataflow import MUTATORS, derives, rd_of
+from .common_guard import path_facts, raise_facts, rel, sufficient
 from ..loader import dotted, walk_no_nested
 from ..tables import op_classes
 
@@ -164,12 +165,16 @@ def merge_guards(ctx, rule="C03.merge-guards"):
                            f": its effective parameter is not ({sgn(d1):+d})*a + ({sgn(d2):+d})*b, i.e. not the composition",
                            role=role, line=f.node.lineno)
             # identity only when the sum is exactly zero
-            zero = [n for n in cfg.nodes if n.kind == "if" and isinstance(n.ast, ast.Compare) and
-                    isinstance(n.ast.comparators[0], ast.Constant) and n.ast.comparators[0].value == 0
-                    and isinstance(n.ast.ops[0], ast.Eq)]
-            ok = bool(zero) and any(isinstance(cfg.node(b).ast, ast.Return) and
-                                    (cfg.node(b).ast.value is None or getattr(cfg.node(b).ast.value, "value", 1) is None)
-                                    for z in zero for b, l in cfg.succ[z.id] if l == TRUE)
+            # some `return None` is reached exactly under the fact <sum> == 0
+            ok = False
+            for nd in cfg.nodes:
+                if nd.kind == "stmt" and isinstance(nd.ast, ast.Return) and \
+                        (nd.ast.value is None or isinstance(nd.ast.value, ast.Constant) and nd.ast.value.value is None):
+                    for a_, v_ in path_facts(cfg, nd.id):
+                        r_ = rel(a_, v_)
+                        if r_ is not None and r_[0] == "==" and any(isinstance(x, ast.Constant) and x.value == 0 and
+                                                                    not isinstance(x.value, bool) for x in (r_[1], r_[2])):
+                            ok = True
             ctx.ob(rule, f.site, ok, "" if ok else "None (identity) is not returned exactly when the summed parameter is 0",
                    role="identity-on-zero", line=f.node.lineno)
     ctx.floor(rule, 12)
